@@ -30,7 +30,7 @@ def gen_options(rng, tier="quick", allow=None, zoom_mode=None):
     elif zm == "autosmall":
         o["zooms"] = "auto"
         o["izs"] = rng.choice([2, 4, 10])
-        o["nzooms"] = rng.choice([1, 3, 10])
+        o["nzooms"] = rng.choice([1, 3, 10, 12, 15])      # the zoom directory has room for ten levels
     else:
         o["zooms"] = "none"
     o["pass"] = rng.choice([1, 2])
@@ -145,6 +145,21 @@ def inject_zero_length_wig(rng, names, sizes, data, tags, ends_ok=False):
     tags.add("zero_length_value")
     if vals[-1][0] == vals[-1][1]:
         tags.add("zero_length_last")
+
+
+def free_chrom_order(rng, names, o, tags, num=1, den=5):
+    """with chance num/den: the chromosomes come in an order that is NOT the byte order of their names, which the writers
+    accept when chromosome order is not required (sort=start). Ids then follow first appearance, not names. Returns names."""
+    if len(names) < 2 or not rng.chance(num, den):
+        return names
+    perm = list(names)
+    while perm == sorted(perm):
+        perm = [perm.pop(rng.below(len(perm))) for _ in range(len(perm))]
+    o["sort"] = "start"
+    if o.get("src") in ("par", "parix"):
+        o["src"] = "file"
+    tags.add("chrom_order_free")
+    return perm
 
 
 def wig_lines(names, sizes, data, extra_sizes=()):
